@@ -787,7 +787,7 @@ def profile(**kw):
   p = dict(styles=("pop", "roll", "paint"), mix=False, max_caps=5, max_rows=4, indent=True, to=True, pac_attr=True, mid=True, special=True,
            extended=True, bs=True, rich=True, pad=True, pad_inside=False, ch2=True, f2=True, undoubled=False, brk_rows=True,
            row_order=False, contiguous=False, pop_leftover=False, edm_pre=True, cr_no_pac=True, roll_base=False,
-           paint_accumulate=False, roll_blank=False, paint_c1=False, paint_c4=False, parity=True, df=True, italics_on_colour=False, mid_pairs=True, mid_runs=False, trailing_mid=False)
+           paint_accumulate=False, roll_blank=False, open_end=False, paint_c1=False, paint_c4=False, parity=True, df=True, italics_on_colour=False, mid_pairs=True, mid_runs=False, trailing_mid=False)
   for k in kw:
     if k not in p:
       raise KeyError(k)
@@ -844,11 +844,12 @@ def normalise(caps, prof, draw=None):
     put it into non-displayed memory - unless the profile asks for the leftover class;
   * paint-on and roll-up captions end with EDM before a caption of another style starts, and a paint-on caption that follows a
     paint-on caption without EDM uses rows that are still blank;
-  * the last caption of a file is erased (so that no paragraph is left open-ended by construction)."""
+  * the last caption of a file is erased (so that no paragraph is left open-ended by construction) - unless the profile's open_end
+    switch lets the file end while it is displayed."""
   for i, cap in enumerate(caps):
     nxt = caps[i + 1] if i + 1 < len(caps) else None
     if nxt is None:
-      if cap.get("edm") is None:
+      if cap.get("edm") is None and not (prof["open_end"] and cap.get("gap", 0) % 2 == 0):
         cap["edm"] = 12
       continue
     if cap["style"] != nxt["style"] and cap.get("edm") is None:
